@@ -79,6 +79,11 @@ def make_model(key, r, last=None, holes=(), lock=0xFF, pattern="random", unlock_
                 if lim is not None:
                     cands += [lim & top, (lim + 1) & top, (lim - 1) & top]
             body = r.choice(cands).to_bytes(nb, "big") if nb else b""
+            if hasattr(v, "value_to_raw") and v.__mro__[1].__name__ == "StringValue" or "StringValue" in [c.__name__ for c in v.__mro__]:
+                # strings: filling the field exactly, one short of it, empty, a non-ASCII byte at either end
+                txt = bytes(r.randrange(0x20, 0x7F) for _ in range(n))
+                body = r.choice([txt, txt[:-1] + b"\x00", b"\x00" + txt[1:], txt[:-1] + b"\xe9", b"\xe9" + txt[1:],
+                                 txt[:n // 2] + b"\x00" + txt[n // 2 + 1:]])
             if scaled:
                 body = bytes([r.choice([0xF9, 0xFA, 0xFB, 0xFF, 0, 1, 5, 6, 6, 7, 0x80, 0x7F])]) + body
             for a, b in zip(locs, body):
